@@ -181,7 +181,9 @@ func Class(msg string) string {
 		return "slicebounds"
 	case has("index out of range"):
 		return "index"
-	case has("nil pointer dereference"), has("invalid memory address"), has("on zero value"), has("nil pointer"):
+	case has("len > cap"), has("len larger than cap"):
+		return "makesize"
+	case has("nil pointer dereference"), has("invalid memory address"), has("on zero value"), has("nil pointer"), has("call of nil function"):
 		return "nilptr"
 	case has("interface conversion"), has("type assertion"):
 		return "typeassert"
